@@ -238,6 +238,23 @@ fn write_entry(
         low_res_scale,
     } = entry.specs;
 
+    // fields that this version's header layout has no room for must not be dropped silently
+    {
+        let old_header = file_format.version.is_old_header();
+        let mut no_field = |name: &str, is_set: bool| -> Result<(), ErrorReported> {
+            if is_set { return Err(emitter.emit(error!("'{name}' cannot be stored in this version of the ANM format"))); }
+            Ok(())
+        };
+        if old_header {
+            no_field("offset_x", offset_x != 0)?;
+            no_field("offset_y", offset_y != 0)?;
+            no_field("low_res_scale", low_res_scale)?;
+        } else {
+            no_field("colorkey", colorkey != 0)?;
+            no_field("path_2", entry.path_2.is_some())?;
+        }
+    }
+
     file_format.write_header(w, emitter, &EntryHeaderData {
         rt_width, rt_height, rt_format, colorkey,
         offset_x, offset_y,
@@ -289,7 +306,7 @@ fn write_entry(
     if let Some(texture_data) = &entry.texture_data {
         let texture_metadata = entry.texture_metadata.as_ref().expect("always Some if texture_data is");
         texture_offset = w.pos()? - entry_pos;
-        write_texture(w, texture_data, texture_metadata)?;
+        write_texture(w, emitter, texture_data, texture_metadata)?;
     };
 
     let end_pos = w.pos()?;
@@ -382,13 +399,18 @@ fn read_texture(f: &mut BinReader, emitter: &impl Emitter, with_images: bool) ->
 }
 
 #[inline(never)]
-fn write_texture(f: &mut BinWriter, data: &TextureData, metadata: &TextureMetadata) -> WriteResult {
+fn write_texture(f: &mut BinWriter, emitter: &impl Emitter, data: &TextureData, metadata: &TextureMetadata) -> WriteResult {
+    // (16-bit fields; a value that does not fit must be an error, never a different value)
+    let fit16 = |what: &str, value: u32| u16::try_from(value).map_err(|_| {
+        emitter.emit(error!("{what} {value} is too large for an embedded image (max {})", u16::MAX))
+    });
+    let (format, width, height) = (fit16("img_format", metadata.format)?, fit16("img_width", metadata.width)?, fit16("img_height", metadata.height)?);
     f.write_all(b"THTX")?;
 
     f.write_u16(0)?;
-    f.write_u16(metadata.format as _)?;
-    f.write_u16(metadata.width as _)?;
-    f.write_u16(metadata.height as _)?;
+    f.write_u16(format)?;
+    f.write_u16(width)?;
+    f.write_u16(height)?;
 
     f.write_u32(data.data.len() as _)?;
     f.write_all(&data.data)?;
